@@ -141,6 +141,8 @@ def buildOne (msl : Bool) (p : Params) (nstatics : Nat) (rs : List Res) (helpers
   if (rs.any fun r => reserved.contains r.name) && (!msl || pipe.isSome) then "unsupported-renamed-global" else
   let funcs := helpers ++ entries
   let nh := helpers.length
+  -- overloads are renamed by the name generator, possibly onto another function's name (C15)
+  if !(funcs.map (·.name)).Nodup && !msl then "unsupported-overloaded-names" else
   let stageIds := match pipe with | some pp => pp.stages | none => []
   if stageIds.any (fun k => match entries[k]? with | some f => reserved.contains f.name | none => true) && !msl then
     "unsupported-renamed-entry" else
